@@ -78,13 +78,24 @@ static void case_plain(uint64_t k, vh_rng *r)
         if (bb == 16) {
             if (sub == 0) { call_begin("skinny128_set_key", "-", params); skinny128_set_key(&a128.ks, key, L); call_end(params); }
             else { call_begin("skinny128_set_tweaked_key", "-", params); skinny128_set_tweaked_key(&a128, key, sub == 1 ? L : 16 + 16 * (unsigned)(q & 1)); call_end(params); }
-            if (sub == 2) { call_begin("skinny128_set_tweak", "-", params); skinny128_set_tweak(&a128, (q & 32) ? NULL : tw, L); call_end(params); }
+            if (sub == 2) {
+                call_begin("skinny128_set_tweak", "-", params); skinny128_set_tweak(&a128, (q & 32) ? NULL : tw, L); call_end(params);
+                /* later tweak changes replace a SECRET tweak (the first one replaced the public all-zero tweak) */
+                call_begin("skinny128_set_tweak", "-", params); skinny128_set_tweak(&a128, tw, 16); call_end(params);
+                call_begin("skinny128_set_tweak", "-", params); skinny128_set_tweak(&a128, tw + 3, L); call_end(params);
+                call_begin("skinny128_set_tweak", "-", params); skinny128_set_tweak(&a128, NULL, L); call_end(params);
+            }
             call_begin("skinny128_ecb_encrypt", "-", params); skinny128_ecb_encrypt(out, blk, &a128.ks); call_end(params);
             call_begin("skinny128_ecb_decrypt", "-", params); skinny128_ecb_decrypt(out, blk, &a128.ks); call_end(params);
         } else {
             if (sub == 0) { call_begin("skinny64_set_key", "-", params); skinny64_set_key(&a64.ks, key, L); call_end(params); }
             else { call_begin("skinny64_set_tweaked_key", "-", params); skinny64_set_tweaked_key(&a64, key, sub == 1 ? L : 8 + 8 * (unsigned)(q & 1)); call_end(params); }
-            if (sub == 2) { call_begin("skinny64_set_tweak", "-", params); skinny64_set_tweak(&a64, (q & 32) ? NULL : tw, L); call_end(params); }
+            if (sub == 2) {
+                call_begin("skinny64_set_tweak", "-", params); skinny64_set_tweak(&a64, (q & 32) ? NULL : tw, L); call_end(params);
+                call_begin("skinny64_set_tweak", "-", params); skinny64_set_tweak(&a64, tw, 8); call_end(params);
+                call_begin("skinny64_set_tweak", "-", params); skinny64_set_tweak(&a64, tw + 3, L); call_end(params);
+                call_begin("skinny64_set_tweak", "-", params); skinny64_set_tweak(&a64, NULL, L); call_end(params);
+            }
             call_begin("skinny64_ecb_encrypt", "-", params); skinny64_ecb_encrypt(out, blk, &a64.ks); call_end(params);
             call_begin("skinny64_ecb_decrypt", "-", params); skinny64_ecb_decrypt(out, blk, &a64.ks); call_end(params);
         }
@@ -97,6 +108,7 @@ static void case_plain(uint64_t k, vh_rng *r)
         SECRET(key, 16); SECRET(blk, 8); SECRET(tw, 16);
         call_begin("mantis_set_key", "-", params); mantis_set_key(&km, key, 16, rounds, mode ? MANTIS_ENCRYPT : MANTIS_DECRYPT); call_end(params);
         call_begin("mantis_set_tweak", "-", params); mantis_set_tweak(&km, tw, 8); call_end(params);
+        call_begin("mantis_set_tweak", "-", params); mantis_set_tweak(&km, tw + 8, 8); call_end(params);
         call_begin("mantis_ecb_crypt", "-", params); mantis_ecb_crypt(out, blk, &km); call_end(params);
         call_begin("mantis_ecb_crypt_tweaked", "-", params); mantis_ecb_crypt_tweaked(out, blk, tw + 8, &km); call_end(params);
         call_begin("mantis_swap_modes", "-", params); mantis_swap_modes(&km); call_end(params);
@@ -126,13 +138,18 @@ static void case_ctr(uint64_t k, vh_rng *r)
     if (c->ctr_backend(&h) != be) { viol("C08:backend-not-pinned", "{}"); c->ctr_cleanup(&h); return; }
     SECRET(SEC, 48); SECRET(SEC + 64, 16); SECRET(SEC + 96, 16); SECRET(SEC + 128, 256);
     call_begin(fn[1], ben, params); if (tweaked) c->ctr_set_tkey(&h, SEC, klen); else c->ctr_set_key(&h, SEC, klen, 5 + (unsigned)(q % 4)); call_end(params);
-    if (tweaked || c->id == CIPH_MANTIS) { call_begin(fn[2], ben, params); c->ctr_set_tweak(&h, SEC + 64, tlen); call_end(params); }
+    if (tweaked || c->id == CIPH_MANTIS) {
+        call_begin(fn[2], ben, params); c->ctr_set_tweak(&h, SEC + 64, tlen); call_end(params);
+        call_begin(fn[2], ben, params); c->ctr_set_tweak(&h, SEC + 72, tlen); call_end(params);      /* replaces a secret tweak */
+    }
     call_begin(fn[3], ben, params); c->ctr_set_counter(&h, (q & 16) ? NULL : SEC + 96, clen); call_end(params);
+    if (q & 32) { call_begin(fn[3], ben, params); c->ctr_set_counter(&h, SEC + 100, clen); call_end(params); }   /* replaces a secret counter */
     for (i = 0; i < nsplit; ++i) {
         unsigned n = i + 1 == nsplit ? total - done : (total - done) / 2;
         call_begin(fn[4], ben, params); c->ctr_encrypt(OUT + done, SEC + 128 + done, n, &h); call_end(params);
         done += n;
         if (i == 1 && (q & 8)) { call_begin(fn[1], ben, params); if (tweaked) c->ctr_set_tkey(&h, SEC, klen); else c->ctr_set_key(&h, SEC, klen, 6); call_end(params); }   /* mid-stream rekey path */
+        if (i == 0 && (q & 64) && (tweaked || c->id == CIPH_MANTIS)) { call_begin(fn[2], ben, params); c->ctr_set_tweak(&h, SEC + 80, tlen); call_end(params); }      /* mid-stream tweak change */
     }
     PUBLIC(OUT, 256);
     call_begin(fn[5], ben, params); c->ctr_cleanup(&h); call_end(params);
